@@ -4,7 +4,7 @@ prints a matrix and writes seeded/RESULTS.json.  usage: tools_seeded_all.py [nam
 import json, os, sys
 from concurrent.futures import ProcessPoolExecutor
 sys.path.insert(0, os.path.dirname(os.path.abspath(__file__)))
-from ocv.patching import seeded_sources
+from ocv.patching import stored_sources, added
 
 PROPS = [f"C{i:02d}" for i in range(1, 21)]
 
@@ -13,16 +13,17 @@ def one(args):
     name, prop = args
     from ocv.__main__ import analyse
     from ocv.core import VIOLATION, UNKNOWN
-    src = seeded_sources(f"/verif/seeded/{name}")
+    src = stored_sources(f"/verif/seeded/{name}")
     if src is None:
         return name, prop, "nopatch"
     try:
         mod, ctx = analyse(prop, "/repo", "quick", sources=src)
     except Exception as ex:
         return name, prop, "crash:" + type(ex).__name__
-    if any(r.status == VIOLATION for r in ctx.results):
+    new = added(prop, ctx.results)            # what the change adds to the reports on the bare corpus snapshot
+    if any(r.status == VIOLATION for r in new):
         return name, prop, "violation"
-    if any(r.status == UNKNOWN for r in ctx.results):
+    if any(r.status == UNKNOWN for r in new):
         return name, prop, "undecided"
     return name, prop, "ok"
 
